@@ -87,6 +87,26 @@ func legSem(c *Ctx, rtl bool) {
 			corpus = append(corpus, a)
 		}
 	}
+	// literals longer than the 50 runes a search prefix may hold (the prefix is cut: to its head when scanning left to
+	// right, to its tail when scanning right to left), with texts built around the literal itself
+	special := map[*Ast][][]rune{}
+	for _, n := range []int{49, 50, 51, 65, 120} {
+		var ks []*Ast
+		var text []rune
+		for k := 0; k < n; k++ {
+			ch := rune("abcab"[k%5])
+			if k == n-1 {
+				ch = 'd'
+			}
+			ks = append(ks, lit(ch))
+			text = append(text, ch)
+		}
+		for _, a := range []*Ast{cat(ks...), cat(grp(cat(ks[:n/2]...)), cat(ks[n/2:]...))} {
+			special[a] = [][]rune{text, append([]rune{'x'}, text...), append(append([]rune{}, text...), 'x', 'y'), text[1:], text[:n-1],
+				append(append(append([]rune{}, text...), 'z'), text...), append(append([]rune{'a', 'b'}, text...), 'c')}
+			corpus = append(corpus, a)
+		}
+	}
 	for i := 0; i < nPat+len(corpus); i++ {
 		o := randOpts(c.Rng, rtl)
 		d := 2 + c.Rng.Intn(depth-1)
@@ -160,6 +180,9 @@ func legSem(c *Ctx, rtl bool) {
 			alpha = small
 		}
 		allStrings(alpha, ml, func(s []rune) { inputs = append(inputs, s) })
+		if sp := special[ast]; sp != nil {
+			inputs = sp
+		}
 		if rtl {
 			// the shortest texts once more with a multi-byte rune in front and behind (byte and rune offsets differ: the
 			// entry points' default start is the END of the text)
